@@ -221,3 +221,22 @@ Lemma keyexists_empty_count_step s r id kvs k : reg_obj s r = Some (id, kvs) ->
   step_core s (OKeyExists r k) = (s, Ret (OB (match alookup k kvs with Some _ => true | None => false end))) /\
   step_core s (OEmpty r) = (s, Ret (OB (Nat.eqb (length kvs) 0))).
 Proof. intros Hr. cbn [step_core]. rewrite Hr. split; [reflexivity|]. destruct kvs; reflexivity. Qed.
+
+(* Clear: no panic; the receiver's cell becomes empty for every alias; other cells and the environment untouched *)
+Lemma oclear_step s r id kvs : reg_obj s r = Some (id, kvs) ->
+  let s' := fst (step_core s (OClear r)) in
+  snd (step_core s (OClear r)) = Ret ONone /\ st_env s' = st_env s /\
+  (forall r', nth_error (st_env s) r' = Some (HO id) -> reg_obj s' r' = Some (id, [])) /\
+  (forall j, j <> id -> nth_error (st_heap s') j = nth_error (st_heap s) j) /\ length (st_heap s') = length (st_heap s).
+Proof.
+  intros Hr. cbn [step_core]. rewrite Hr. cbn [fst snd with_heap st_env st_heap]. split; [reflexivity|]. split; [reflexivity|].
+  assert (Hid : (id < length (st_heap s))%nat).
+  { unfold reg_obj in Hr. destruct (nth_error (st_env s) r) as [[| | | | | |i]|]; try discriminate.
+    unfold get_obj in Hr. destruct (nth_error (st_heap s) i) as [c|] eqn:E; [|discriminate].
+    destruct c; try discriminate. injection Hr as <- _. apply nth_error_Some. congruence. }
+  split; [|split].
+  - intros r' Hr'. unfold reg_obj, with_heap. cbn [st_env st_heap]. rewrite Hr'. unfold get_obj, set_obj.
+    rewrite nth_error_upd_eq by exact Hid. reflexivity.
+  - intros j Hj. unfold set_obj. apply nth_error_upd_neq. congruence.
+  - unfold set_obj. apply upd_length.
+Qed.
